@@ -63,6 +63,13 @@ func genC02(t *rapid.T) c02Case {
 			cs.Files = append(cs.Files, memFile{Name: "sub/base.yaml", Content: "services:\n  tmpl:\n    build: ./ctx\n    env_file: ./t.env\n    ssh: null\n    build:\n      context: ./ctx\n      ssh: [default, k1=/a, k2=/b]\n      args: {Z: \"1\", A: \"2\"}\n"[:0] +
 				"services:\n  tmpl:\n    env_file: ./t.env\n    build:\n      context: ./ctx\n      ssh: [default, k1=/a, k2=/b]\n      args: {Z: \"1\", A: \"2\"}\n      tags: [t2, t1]\n"},
 				memFile{Name: "sub/t.env", Content: "Z=1\nA=2\n"})
+			if rapid.Bool().Draw(t, "several-extend-one-file") {
+				// several services take the same base from the same file, one of them under the base's own name
+				cs.Feature = append(cs.Feature, "several-services-extend-one-file")
+				svcs["tmpl"] = map[string]any{"extends": map[string]any{"file": "sub/base.yaml", "service": "tmpl"}, "image": "own-tmpl", "hostname": "main-tmpl", "cap_add": []any{"OWN"}}
+				svcs["far2"] = map[string]any{"extends": map[string]any{"file": "sub/base.yaml", "service": "tmpl"}, "image": "far2"}
+				svcs["far3"] = map[string]any{"extends": map[string]any{"file": "./sub/base.yaml", "service": "tmpl"}, "image": "far3"}
+			}
 		}
 	}
 	// one service referred to through several attributes at once, spelled differently each time: the implied
